@@ -35,14 +35,33 @@ def gen(rng):
         reqs.append({'id': 'zz', 'version': '0'})
     L = g.lexicon('b', '1', v, n_syn=rng.randint(3, 6), n_ent=2, lang='de', ili_pool=pool, requires=reqs or None)
     u = g.lexicon('u', '1', v, n_syn=3, n_ent=1, lang='ja', ili_pool=pool)
-    W = {'e:1': e, 'b:1': L, 'u:1': u}
-    order = rng.choice([['e:1', 'b:1', 'u:1'], ['b:1', 'u:1', 'e:1'], ['b:1', 'u:1']])
+    # a second version of the expand lexicon and a lexicon that requires it (and a version that is not installed):
+    # the selected lexicons then declare different versions of one provider id
+    e2 = g.lexicon('e', '2', v, n_syn=rng.randint(2, 4), n_ent=1, lang='en', ili_pool=pool)
+    for y in e2['synsets']:
+        y['id'] = y['id'].replace('e-', 'e2-', 1)
+    for en in e2.get('entries', []):
+        for sn in en.get('senses', []):
+            sn['synset'] = sn['synset'].replace('e-', 'e2-', 1)
+            for r in sn.get('relations', []):
+                r['target'] = r['target'].replace('e-ss', 'e2-ss', 1) if r['target'].startswith('e-ss') else r['target']
+    for y in e2['synsets']:
+        for r in y.get('relations', []):
+            r['target'] = r['target'].replace('e-', 'e2-', 1)
+        if 'members' in y:
+            pass
+    c = g.lexicon('c', '1', v, n_syn=rng.randint(2, 4), n_ent=1, lang='de', ili_pool=pool,
+                  requires=[{'id': 'e', 'version': '2'}] + ([{'id': 'e', 'version': '3'}] if rng.random() < 0.5 else []))
+    W = {'e:1': e, 'b:1': L, 'u:1': u, 'e:2': e2, 'c:1': c}
+    order = rng.choice([['e:1', 'b:1', 'u:1', 'e:2', 'c:1'], ['b:1', 'u:1', 'e:1', 'c:1', 'e:2'], ['b:1', 'u:1', 'c:1'], ['e:2', 'c:1', 'b:1', 'e:1']])
     ops = [multi.add_op(W, [s], v) for s in order]
     for ex in (None, '', 'e:1', 'e:1 u:1', '*', 'u:1'):
         op = {'k': 'battery', 'lexicon': 'b:1'}
         if ex is not None:
             op['expand'] = ex
         ops.append(op)
+    ops.append({'k': 'battery', 'lexicon': 'b:1 c:1'})      # dependencies on two versions of one id
+    ops.append({'k': 'battery', 'lexicon': 'c:1 b:1'})
     ops.append({'k': 'battery'})       # unrestricted: expands over all lexicons
     return {'ops': ops}
 
@@ -68,7 +87,11 @@ def judge(ctx, sc, im):
             expE = [s for s, _ in inst]
             exp_missing = []
         else:
-            deps = [f"{r['id']}:{r['version']}" for r in d['b:1'].get('requires', [])]
+            deps = []
+            for sp in args['lexicon'].split():
+                for r in d[sp].get('requires', []) if sp in d else []:
+                    if f"{r['id']}:{r['version']}" not in deps:
+                        deps.append(f"{r['id']}:{r['version']}")
             expE = [s for s in deps if s in d]
             exp_missing = [s for s in deps if s not in d]
         if im[k] == 'error':
